@@ -63,6 +63,10 @@ class IdentityLinearOperator(ConstantDiagLinearOperator):
         else:
             return rhs
 
+    def _bilinear_derivative(self, left_vecs: Tensor, right_vecs: Tensor) -> Tuple[Optional[Tensor], ...]:
+        # no tensor arguments: the tuple is as long as representation(), i.e. empty
+        return ()
+
     @cached(name="cholesky", ignore_args=True)
     def _cholesky(
         self: Float[LinearOperator, "*batch N N"], upper: Optional[bool] = False
